@@ -2079,6 +2079,24 @@ def _sink_body(stmts, budget):
                 changed |= _sink_body(sub, budget)
         for h in getattr(st, "handlers", []) or []:
             changed |= _sink_body(h.body, budget)
+    # `if c: r = (q, v) / else: r = ...` + `q2, v2 = r` + `return C(q2, v2)`: the unpacking travels with the return
+    if len(stmts) >= 3 and budget[0] > 0 and isinstance(stmts[-1], ast.Return) and stmts[-1].value is not None and isinstance(stmts[-3], ast.If) \
+            and isinstance(stmts[-2], ast.Assign) and len(stmts[-2].targets) == 1 and isinstance(stmts[-2].targets[0], ast.Tuple) and isinstance(stmts[-2].value, ast.Name) \
+            and all(isinstance(t_, ast.Name) for t_ in stmts[-2].targets[0].elts):
+        S, unp, ret = stmts[-3], stmts[-2], stmts[-1]
+        stored_in_S = {x.id for x in ast.walk(S) if isinstance(x, ast.Name) and isinstance(x.ctx, ast.Store)}
+        unpacked = {t_.id for t_ in unp.targets[0].elts}
+        used = {x.id for x in ast.walk(ret.value) if isinstance(x, ast.Name) and isinstance(x.ctx, ast.Load)}
+        if unp.value.id in stored_in_S and (unpacked & used) and sum(1 for _ in ast.walk(ret.value)) <= 30 and S.orelse:
+            budget[0] -= 1
+            del stmts[-2:]
+            for arm in (S.body, S.orelse):
+                if not _terminates(arm):
+                    arm.append(_clone(unp))
+                    arm.append(_clone(ret))
+            changed = True
+            for arm in (S.body, S.orelse):
+                _sink_body(arm, budget)
     while len(stmts) >= 2 and budget[0] > 0 and isinstance(stmts[-1], ast.Return) and stmts[-1].value is not None:
         ret, S = stmts[-1], stmts[-2]
         if not isinstance(S, (ast.If, ast.Try)) or (isinstance(S, ast.Try) and S.finalbody):
@@ -2133,11 +2151,14 @@ def _sink_chosen_calls(stmts, budget):
         if _terminates(S.body) or _terminates(S.orelse):
             continue
         # (for a following `if`, the function must be called in its test: `if not holds(value, limit): reject(...)`)
-        called = {x.func.id for x in ast.walk(N.test if isinstance(N, ast.If) else N) if isinstance(x, ast.Call) and isinstance(x.func, ast.Name)}
+        scope_ = N.test if isinstance(N, ast.If) else N
+        called = {x.func.id for x in ast.walk(scope_) if isinstance(x, ast.Call) and isinstance(x.func, ast.Name)}
+        # ... or the key of the function in a table of functions: `key = '>'` / `key = '>='`, then `TABLE[key](value, limit)`
+        called |= {x.func.slice.id for x in ast.walk(scope_) if isinstance(x, ast.Call) and isinstance(x.func, ast.Subscript) and isinstance(x.func.slice, ast.Name)}
 
         def chosen(arm, nm):
             return any(isinstance(a_, ast.Assign) and len(a_.targets) == 1 and isinstance(a_.targets[0], ast.Name) and a_.targets[0].id == nm
-                       and isinstance(a_.value, (ast.Name, ast.Attribute, ast.Lambda)) for a_ in arm)
+                       and isinstance(a_.value, (ast.Name, ast.Attribute, ast.Lambda, ast.Constant)) for a_ in arm)
 
         if not any(chosen(S.body, nm) and chosen(S.orelse, nm) for nm in called):
             continue
